@@ -3,6 +3,7 @@ package main
 import (
 	"fmt"
 	"go/token"
+	"go/types"
 
 	"golang.org/x/tools/go/ssa"
 )
@@ -86,11 +87,44 @@ func init() {
 						}
 					}
 				})
+				viaHelperOutcome := false
+				if test == nil {
+					// the test may live in a helper: an If on a helper's result one outcome of which implies the
+					// wrong-kind fact and the other the right-kind fact
+					forEachInstr(fn, func(in ssa.Instruction) {
+						ifi, ok := in.(*ssa.If)
+						if !ok || test != nil {
+							return
+						}
+						for idx := 0; idx < 2; idx++ {
+							cw, tw := normCond(ifi.Cond, idx == 0)
+							cr, tr := normCond(ifi.Cond, idx != 0)
+							impliesW, impliesR := false, false
+							for _, f := range helperCondFacts(cw, tw, 0, map[*ssa.BasicBlock]bool{}) {
+								if t.wrong(f.Cond, f.Taken) {
+									impliesW = true
+								}
+							}
+							for _, f := range helperCondFacts(cr, tr, 0, map[*ssa.BasicBlock]bool{}) {
+								if t.right(f.Cond, f.Taken) {
+									impliesR = true
+								}
+							}
+							if impliesW && impliesR {
+								test, wrongIdx, viaHelperOutcome = ifi, idx, true
+							}
+						}
+					})
+				}
 				if test == nil {
 					c.Fail("wrong-kind-test@"+t.fn, c.P.Pos(fn.Pos()), "test '"+t.what+"' not found")
 					continue
 				}
 				ok, bad := MustPassFromBlock(test.Block().Succs[wrongIdx], c.P.CallTargetPred(0, apv), PathOpts{})
+				if !ok && viaHelperOutcome {
+					cw, tw := normCond(test.Cond, wrongIdx == 0)
+					ok = helperOutcomePasses(cw, tw, c.P.CallTargetPred(0, apv))
+				}
 				c.Check(ok, "wrong-kind-aborts@"+t.fn, c.Pos(test), "wrong kind ⇒ abortProtocolViolation on every path", "a wrong-kind path does not abort: "+c.P.InstrPos(bad))
 				// on the wrong-kind edge nothing but the abort (and return) is reachable
 				okQuiet := true
@@ -346,16 +380,17 @@ func init() {
 				}
 			})
 			c.Check(okFin, "wfq-finish-tag", c.P.Pos(push.Pos()), "streamFinish[stream] = start + len/weight", "WFQ finish tag is not start + len/weight")
-			// weight defaults to 1
+			// weight defaults to 1: every value the divisor can take is a non-zero constant or was tested != 0
 			okW := false
 			forEachInstr(push, func(in ssa.Instruction) {
-				if phi, ok := in.(*ssa.Phi); ok {
-					for _, e := range phi.Edges {
-						if k, ok := e.(*ssa.Const); ok && k.Value != nil && k.Value.String() == "1" {
-							okW = true
-						}
-					}
+				q, ok := in.(*ssa.BinOp)
+				if !ok || q.Op != token.QUO {
+					return
 				}
+				if bt, isB := q.Type().Underlying().(*types.Basic); !isB || bt.Info()&types.IsFloat == 0 {
+					return
+				}
+				okW = divisorNonZero(q.Y)
 			})
 			c.Check(okW, "wfq-weight-default", c.P.Pos(push.Pos()), "an unset weight counts as 1", "zero weight is not defaulted (division by zero → +Inf tags)")
 			pop := c.Fn("weightedFairQueueingPendingQueuePolicy.Pop")
@@ -430,4 +465,76 @@ func valueOf(in ssa.Instruction) ssa.Value {
 		return v
 	}
 	return nil
+}
+
+// divisorNonZero: every value v can take (through φ and helper returns) is a
+// non-zero constant, or a value whose "== 0" test is known false where it is chosen.
+func divisorNonZero(v ssa.Value) bool {
+	type leaf struct {
+		val   ssa.Value
+		facts []condFact
+	}
+	var leaves []leaf
+	var walk func(v ssa.Value, facts []condFact, d int) bool
+	walk = func(v ssa.Value, facts []condFact, d int) bool {
+		if d > 4 {
+			return false
+		}
+		switch x := v.(type) {
+		case *ssa.Phi:
+			for i, e := range x.Edges {
+				pred := x.Block().Preds[i]
+				f := append(append([]condFact{}, facts...), DomFactsX(pred)...)
+				if len(pred.Instrs) > 0 {
+					if ifi, ok := pred.Instrs[len(pred.Instrs)-1].(*ssa.If); ok && pred.Succs[0] != pred.Succs[1] {
+						cc, tt := normCond(ifi.Cond, pred.Succs[0] == x.Block())
+						f = append(f, condFact{cc, tt})
+					}
+				}
+				if !walk(e, f, d+1) {
+					return false
+				}
+			}
+			return true
+		case *ssa.Call:
+			if sc := x.Call.StaticCallee(); sc != nil && curProg != nil && curProg.inPkg(sc) && sc.Blocks != nil && !x.Call.IsInvoke() {
+				for _, r := range allReturns(sc) {
+					res := retResults(r)
+					if len(res) != 1 {
+						return false
+					}
+					if !walk(res[0], append(append([]condFact{}, facts...), DomFactsX(r.Block())...), d+1) {
+						return false
+					}
+				}
+				return true
+			}
+		}
+		leaves = append(leaves, leaf{v, facts})
+		return true
+	}
+	if !walk(v, nil, 0) {
+		return false
+	}
+	for _, l := range leaves {
+		if k, ok := l.val.(*ssa.Const); ok && k.Value != nil {
+			if k.Value.String() != "0" {
+				continue
+			}
+			return false
+		}
+		guarded := false
+		for _, f := range l.facts {
+			if CmpCond(token.NEQ, SameExpr(l.val), func(z ssa.Value) bool {
+				k, ok := z.(*ssa.Const)
+				return ok && k.Value != nil && k.Value.String() == "0"
+			})(f.Cond, f.Taken) {
+				guarded = true
+			}
+		}
+		if !guarded {
+			return false
+		}
+	}
+	return len(leaves) > 0
 }
